@@ -24,6 +24,7 @@ ITEM_BUDGET_S = {"quick": 240, "thorough": 900}
 QT = {"quick": 15000, "thorough": 60000}
 _TIER = "quick"
 OBS = ["evaluate", "compile", "compile_again", "dict_fn", "CompiledExpression.value", "compile_iterative"]
+OBS_P = ["evaluate@p'", "compile@p'", "dict_fn@p'", "CompiledExpression.value@p'", "compile_iterative@p'", "compile_fresh@p'"]
 
 META = dict(
     rule="one case = (recipe, variable order V, observation, path); non-trivial = recipe with at least one decided query",
@@ -46,7 +47,8 @@ def items(tier, seed):
     rs = K.scalar_family(tier)
     if tier == "thorough":
         rs += K.random_recipes(seed, 400, 3)
-    return [("conf", seed), ("twin", 0), ("totality", 0)] + [("rs", ch) for ch in K.chunks(rs, 4)]
+    its = [("conf", seed), ("twin", 0), ("totality", 0)] + [("rs", ch) for ch in K.chunks(rs, 4)]
+    return its + K.touched_items(its, 3 if tier == "quick" else 1, ("rs",))
 
 
 def observe(recipe, order, val):
@@ -86,6 +88,40 @@ def observe(recipe, order, val):
             C._RECURSION_THRESHOLD = old
             C._compile_cached.cache_clear()
     rec("compile_iterative", deep)
+    if b.params and all(n + "'" in val for n in b.params):
+        # "parameters contribute their value at call time": every callable is BUILT with the old
+        # parameter values, the parameters are then updated, and only then is it called
+        fns = {}
+
+        def mk(name, f):
+            try:
+                fns[name] = f()
+            except Exception as ex:  # noqa: BLE001
+                fns[name] = ex
+
+        def deep_fn():
+            old = C._RECURSION_THRESHOLD
+            C._RECURSION_THRESHOLD = 0
+            try:
+                C._compile_cached.cache_clear()
+                return C.compile_expression(e, V)
+            finally:
+                C._RECURSION_THRESHOLD = old
+                C._compile_cached.cache_clear()
+        mk("compile", lambda: C.compile_expression(e, V))
+        mk("dict_fn", lambda: C.compile_to_dict_function(e, V))
+        mk("CompiledExpression.value", lambda: C.CompiledExpression(e, V).value)
+        mk("compile_iterative", deep_fn)
+        for n, p_ in b.params.items():
+            p_.set(val[n + "'"])
+        rec("evaluate@p'", lambda: e.evaluate(point))
+        for name, arg in (("compile", x), ("dict_fn", dict(point)), ("CompiledExpression.value", x), ("compile_iterative", x)):
+            f = fns[name]
+            if isinstance(f, Exception):
+                out[name + "@p'"] = f
+            else:
+                rec(name + "@p'", lambda f=f, arg=arg: f(arg))
+        rec("compile_fresh@p'", lambda: C.compile_expression(e, V)(x))
     return out
 
 
@@ -105,16 +141,25 @@ def check_recipe(recipe, planted=False):
     used = names["vars"]
     orders = K.variable_orders(used, tier=_TIER)
     extra = ["u0", "u1"]
-    allv = used + extra + names["syms"] + names["params"]
+    allv = used + extra + names["syms"] + names["params"] + [n + "'" for n in names["params"]]
     val = K.sym_val(allv)
     ref = Ref(val, diff=0)
     oracle = ref.S(recipe)
     dom = ref.dom
     if planted:
         oracle = oracle + 1.0
+    oracle1, dom1 = oracle, dom
+    if names["params"]:
+        ref2 = Ref({**val, **{n: val[n + "'"] for n in names["params"]}}, diff=0)
+        oracle2 = ref2.S(recipe)
+        dom2 = dom1 + ref2.dom
     for order in orders:
         for dec, labels, pc, out in K.explore(lambda: observe(recipe, order, val), max_paths=200):
-            for name in OBS:
+            for name in OBS + (OBS_P if names["params"] else []):
+                oracle, dom = (oracle2, dom2) if name.endswith("@p'") else (oracle1, dom1)
+                if name not in out:
+                    res.append(harness_error(f"observation {name} missing", item=show(recipe)))
+                    continue
                 got = out[name]
                 what = f"{name} {show(recipe)[:90]} V={order}"
                 payload = dict(kind="value", obs=name, recipe=K.enc(recipe), order=order)
@@ -137,6 +182,8 @@ def check_recipe(recipe, planted=False):
 
 def check(item):
     kind, payload = item
+    if kind == "touched":
+        return K.run_touched(check, payload)
     if kind == "rs":
         return K.safe_items(check_recipe, payload, show)
     if kind == "twin":
@@ -264,11 +311,14 @@ def conformance(seed):
 
 
 def replay(payload):
+    r_ = K.replay_touched(replay, payload)
+    if r_ is not None:
+        return r_
     recipe = K.dec(payload["recipe"])
     order = payload["order"]
     name = payload["obs"]
     names = free_names(recipe)
-    allv = list(dict.fromkeys(names["vars"] + order + names["syms"] + names["params"]))
+    allv = list(dict.fromkeys(names["vars"] + order + names["syms"] + names["params"] + [n + "'" for n in names["params"]]))
     if payload["kind"] == "raises":
         pt = {n: 0.7 for n in allv}
         out = observe(recipe, order, pt)
@@ -283,7 +333,10 @@ def replay(payload):
         try:
             with np.errstate(all="ignore"):
                 out = observe(recipe, order, pt)
-                ref, ok = K.concrete_ref(recipe, pt, diff=0)
+                rpt = {**pt, **{n: pt[n + "'"] for n in names["params"]}} if name.endswith("@p'") else pt
+                ref, ok = K.concrete_ref(recipe, rpt, diff=0)
+                if ok and name.endswith("@p'"):
+                    ok = K.concrete_ref(recipe, pt, diff=0)[1]
             if not ok or isinstance(out[name], Exception):
                 continue
             g = float(np.asarray(out[name]).item())
